@@ -345,6 +345,12 @@ func (r *c13Run) Main(s *sim.Sim) {
 	if sc != nil {
 		ids, chunks, bytes := sc.VerifBufferedChunks()
 		s.Info["buffered"] = fmt.Sprintf("ids=%d chunks=%d bytes=%d of %d sent", ids, chunks, bytes, total)
+		if ids > 0 && chunks/ids > c13MaxChunks {
+			// not the catalogued growth over many request ids: one message alone holds more
+			// chunks than the negotiated MaxChunkCount
+			s.Fail("C13", "unbounded-buffer", "single-message-exceeds-max-chunk-count", "the channel holds %d chunks (%d bytes) of %d incomplete messages, i.e. more than MaxChunkCount=%d chunks per message", chunks, bytes, ids, c13MaxChunks)
+			return
+		}
 		if bytes > bound {
 			s.Fail("C13", "unbounded-buffer", "partial-messages-exceed-negotiated-limits", "the channel holds %d bytes in %d chunks of %d incomplete messages; negotiated MaxChunkCount=%d x ReceiveBufferSize=%d = %d (bound used: 4x = %d)", bytes, chunks, ids, c13MaxChunks, c13Buf, c13MaxChunks*c13Buf, bound)
 			return
